@@ -25,7 +25,8 @@ SPEC = os.path.join(engine.VERIF, 'specs', 'peerinput')
 SITS = ['NewHeight', 'Propose', 'ProposeProp', 'Prevote', 'Precommit', 'PolkaUnknown', 'CommitWait', 'NewHeight2', 'Round1',
         'FastSync']
 SCENARIOS = ['block-garbage', 'block-zero-bytes', 'block-nil-header', 'block-nil-data', 'block-nil-lastcommit',
-             'block-truncated', 'block-nil-precommit-entries']
+             'block-truncated', 'block-nil-precommit-entries', 'same-header-other-body-late-parts',
+             'same-header-other-data-late-parts']
 POISONS = ['valid'] + ['commitstep-' + b for b in ('ok', 'nilptr', 'short', 'long', 'few', 'many', 'negbits', 'huge')] + \
           ['pol-' + b for b in ('ok', 'nilptr', 'short', 'long', 'few', 'many', 'negbits', 'huge')] + \
           ['nrs-neg-height', 'nrs-huge-height', 'nrs-prev-height', 'nrs-neg-round', 'nrs-huge-round', 'nrs-huge-step',
@@ -207,6 +208,15 @@ def extra_traces(ctx, T, setups, pairs, quick, sits=None):
         for sc in (rng.sample(SCENARIOS, 3) if quick else SCENARIOS):
             out.append({'id': 'scenario-%s-%s' % (sit, sc), 'cfg': {'T': T},
                         'steps': [setup_step(sit, setups), {'a': 'Scenario', 'args': [sc], 'post': {}}]})
+    if quick:
+        # always: the Byzantine body with the voted header, votes for the genuine block before any genuine part
+        lsits = [x for x in ssits if x != 'ProposeProp'] or ssits
+        have = {t['id'] for t in out}
+        for sc in ('same-header-other-body-late-parts', 'same-header-other-data-late-parts'):
+            sit = rng.choice(lsits)
+            tid = 'scenario-%s-%s' % (sit, sc)
+            if tid not in have:
+                out.append({'id': tid, 'cfg': {'T': T}, 'steps': [setup_step(sit, setups), {'a': 'Scenario', 'args': [sc], 'post': {}}]})
     gsits = [x for x in ['ProposeProp', 'Prevote', 'CommitWait', 'NewHeight2', 'Round1', 'FastSync'] if x in SITS]
     for sit in (rng.sample(gsits, min(2, len(gsits))) if quick else gsits):
         for po in (rng.sample(POISONS, 5) if quick else POISONS):
@@ -271,7 +281,12 @@ def run(ctx, replay=None):
     d = tlc.scratch_copy([tm.SPEC, SPEC], prefix='vpi')
     try:
         # quick: five seeded situations + fast sync (every situation is reached over the seeds); thorough: all ten
-        sits = sorted(ctx.rng.sample(SITS[:-1], 5)) + ['FastSync'] if quick else list(SITS)
+        # (one of them always a situation in which the node still takes the round's proposal: the scripted scenarios need it)
+        if quick:
+            must = ctx.rng.choice(['Propose', 'Round1', 'NewHeight', 'NewHeight2'])
+            sits = sorted([must] + ctx.rng.sample([x for x in SITS[:-1] if x != must], 4)) + ['FastSync']
+        else:
+            sits = list(SITS)
         T = write_mc(ctx, d, pairwise=not quick, sits=sits)
         r = engine.tlc_check(ctx, d, 'MC_PeerInput.tla', 'MC_gen.cfg', name='PeerInput/' + ('single' if quick else 'pairwise'),
                              workers=WORKERS, timeout=600 if quick else 2400, dump=True)
@@ -301,6 +316,8 @@ def run(ctx, replay=None):
     if quick:
         # always: the block-response classes whose failure mode is a silent wedge of fast sync; plus a seeded sample
         osel = [o for o in others if o[0] == 'bc' and o[1].startswith('response-')]
+        late = [o for o in others if o[0] == 'bc' and o[1].startswith('commit-late-')]
+        osel += [o for o in late if o[1] == 'commit-late-badsig'] + ctx.rng.sample([o for o in late if o[1] != 'commit-late-badsig'], 2)
         for rc, k in (('bc', 2), ('mempool', 3), ('pex', 3)):
             l = [o for o in others if o[0] == rc and o not in osel]
             osel += ctx.rng.sample(l, min(k, len(l)))
